@@ -62,10 +62,12 @@ KNOWN = {
     # tries the 1-D interpretation first: 2 axes * 2 nodes == 4 field values);
     # likewise three axes of 3 nodes with a (3, 3, 3) field (9 == 3*3 -> "3
     # stacked fields on 9 points").  See _ambiguous_struct.
-    "struct-equal-axes-as-1d": True,
+    # (fixed in /repo by c4c9483: switch off, the relation is asserted everywhere)
+    "struct-equal-axes-as-1d": False,
     # vario_estimate_axis(field, no_data=v) with finite v no longer treats NaN as
     # missing (missing_mask is isnan OR isclose, never both): NaNs poison the sums
-    "axis-nan-with-nodata": True,
+    # (fixed in /repo by e3792ad: switch off)
+    "axis-nan-with-nodata": False,
     # dist_haversine: for (nearly) antipodal pairs rounding makes arg > 1,
     # sqrt(1 - arg) = NaN, and a NaN distance passes the bin test of EVERY bin
     # (kernel, estimator.pyx; reported to C08).  Only relations that move the
@@ -74,7 +76,8 @@ KNOWN = {
     # with bin_edges=None, points whose values are NaN / no_data (in all fields)
     # still enter standard_bins (box diameter and Sturges count), masked points
     # do not: the two encodings of the same missing set get different bins
-    "stdbins-see-nan-points": True,
+    # listed in known_findings.json (K10): the assertion is live and reported as KNOWN-FINDING
+    "stdbins-see-nan-points": False,
 }
 
 RT = 1e-12  # relative tolerance for values (rounding of re-ordered sums)
